@@ -11,9 +11,10 @@ Theorem c19_blocks : forall tbl b x,
   is_reserved tbl x = true.
 Proof. exact block_all_reserved. Qed.
 
-(* a network intersects reserved space whenever it contains a reserved address *)
+(* a network intersects reserved space whenever it contains a reserved address - every network: the stated address
+   need not be the first address of the range (an iPAddress name constraint is address||mask) *)
 Theorem c19_complete : forall tbl a x,
-  table_wf tbl = true -> table_closed tbl = true -> net_ok a -> canonical a -> addr_ok x ->
+  table_wf tbl = true -> table_closed tbl = true -> net_ok a -> addr_ok x ->
   contains a x = true -> is_reserved tbl x = true -> intersects tbl a = true.
 Proof. exact intersects_complete. Qed.
 
@@ -25,7 +26,7 @@ Proof. exact intersects_sound. Qed.
 
 (* any network containing an intersecting network also intersects *)
 Theorem c19_monotone : forall tbl a b,
-  table_wf tbl = true -> table_closed tbl = true -> net_ok a -> net_ok b -> canonical a -> canonical b ->
+  table_wf tbl = true -> table_closed tbl = true -> net_ok a -> net_ok b ->
   subnet b a = true -> intersects tbl b = true -> intersects tbl a = true.
 Proof. exact intersects_monotone. Qed.
 
@@ -34,6 +35,13 @@ Theorem c19_single : forall tbl x,
   table_wf tbl = true -> addr_ok x ->
   intersects tbl (mkNet (a_fam x) (a_val x) (width (a_fam x))) = is_reserved tbl x.
 Proof. exact intersects_single. Qed.
+
+(* two spellings of one range (same family, same prefix length, same bits under the mask) get one answer *)
+Theorem c19_spelling : forall tbl a b,
+  table_wf tbl = true -> table_closed tbl = true -> net_ok a -> net_ok b ->
+  n_fam a = n_fam b -> n_len a = n_len b -> contains a (base_addr b) = true ->
+  intersects tbl a = intersects tbl b.
+Proof. exact intersects_spelling. Qed.
 
 (* the lints report accordingly *)
 Theorem c19_lint_ips : forall tbl ips, lint_ips tbl ips = true <-> exists x, In x ips /\ is_reserved tbl x = true.
@@ -46,5 +54,6 @@ Print Assumptions c19_complete.
 Print Assumptions c19_sound.
 Print Assumptions c19_monotone.
 Print Assumptions c19_single.
+Print Assumptions c19_spelling.
 Print Assumptions c19_lint_ips.
 Print Assumptions c19_lint_nets.
